@@ -19,6 +19,7 @@ From Coq.Strings Require Import Byte.
 From SP Require Import Bytes Params Msgpack Crypto Errors Nonce Packets Verify Decrypt Signcrypt Armor
   PanicSites PanicModel ToyCrypto NoPanicProofs.
 From SP Require Import GoLang GoLang2 GoAst GoAstProofs GoAstProofs2 GoAstProofs3.
+From SP Require Import GoAstRecv.
 From Coq Require String.
 Import String.StringSyntax.
 Import ListNotations.
